@@ -14,7 +14,7 @@
        derivation paths print/parse round trip; key encodings round trip. *)
 From Coq Require Import String.
 From Coq Require Import List NArith ZArith Bool.
-From Evm Require Import SigWrap HdPath Eip712Enc SigWrapProofs HdPathProofs Eip712EncProofs Eip712WalkProofs Eip712ViewProofs.
+From Evm Require Import SigWrap HdPath Eip712Enc SignDocFields SigWrapProofs HdPathProofs Eip712EncProofs Eip712WalkProofs Eip712ViewProofs SignDocFieldsProofs.
 Import ListNotations.
 Open Scope N_scope.
 
@@ -425,3 +425,86 @@ Proof. vm_compute. split; discriminate. Qed.
 Example C19_example_jsame_discriminates :
   ~ jsame (JObj [(bs "memo", JStr (bs "a"))]) (JObj [(bs "memo", JStr (bs "b"))]).
 Proof. apply jsame_discriminates; [vm_compute; discriminate | reflexivity | reflexivity]. Qed.
+
+(* ================================================================= 5. protobuf sign documents: every field is bound *)
+
+(* ethereum/eip712/encoding.go decodeProtobufSignDoc hands legacytx.StdSignBytes(...) of SOME fields to the renderer of
+   section 4 and refuses the document when certain others are set.  Model/SignDocFields.v enumerates the fields of a
+   SIGN_MODE_DIRECT sign document (TxBody, AuthInfo with SignerInfo / Fee / Tip, chain id, account number: the list the
+   driver reads by reflection from the SDK's message descriptors and compares with pb_table on every run) and models
+   the guards.  A and MI are the payloads the step does not look into (Any, ModeInfo); msgs_ok / chain_ok stand for the
+   further refusals of message unpacking / validatePayloadMessages / ParseChainID. *)
+
+(* every signed field is either rendered or the document is refused: two accepted documents that hand the same legacy
+   document to the renderer agree on every field, except the two envelope fields of the signature (public key and sign
+   mode of the signer info -- SIGN_MODE_LEGACY_AMINO_JSON does not sign them either) *)
+Theorem C19_protobuf_doc_binds_every_field : forall (A MI : Type) msgs_ok chain_ok (f : pbfield) d1 d2 s,
+  pb_decode A MI msgs_ok chain_ok d1 = Some s -> pb_decode A MI msgs_ok chain_ok d2 = Some s ->
+  f <> F_si_mode_info -> f <> F_si_public_key -> pb_get A MI f d1 = pb_get A MI f d2.
+Proof.
+  intros A MI msgs_ok chain_ok f d1 d2 s H1 H2 N1 N2.
+  apply (pb_decode_binds_field A MI msgs_ok chain_ok f d1 d2 s H1 H2).
+  intros C. apply (class_same_iff f) in C. destruct C; contradiction.
+Qed.
+Print Assumptions C19_protobuf_doc_binds_every_field.
+
+(* the same in one piece, with the completeness of the enumeration: same rendering input => the same document once
+   public key and sign mode are blanked *)
+Theorem C19_protobuf_doc_binds : forall (A MI : Type) msgs_ok chain_ok d1 d2 s,
+  pb_decode A MI msgs_ok chain_ok d1 = Some s -> pb_decode A MI msgs_ok chain_ok d2 = Some s ->
+  strip_envelope A MI d1 = strip_envelope A MI d2.
+Proof. exact pb_decode_binds. Qed.
+Print Assumptions C19_protobuf_doc_binds.
+
+Theorem C19_protobuf_fields_are_the_document : forall (A MI : Type) (d1 d2 : pbdoc A MI),
+  (forall f, pb_get A MI f d1 = pb_get A MI f d2) -> d1 = d2.
+Proof. exact fields_complete. Qed.
+Print Assumptions C19_protobuf_fields_are_the_document.
+
+(* field by field: a rendered field is found in the legacy document, a refused one has one admissible value *)
+Theorem C19_protobuf_rendered_field : forall (A MI : Type) msgs_ok chain_ok f d s,
+  pb_decode A MI msgs_ok chain_ok d = Some s -> pb_class f = PRendered -> sd_get A MI f s = Some (pb_get A MI f d).
+Proof. exact rendered_in_stddoc. Qed.
+Print Assumptions C19_protobuf_rendered_field.
+
+Theorem C19_protobuf_refused_field : forall (A MI : Type) msgs_ok chain_ok f d s,
+  pb_decode A MI msgs_ok chain_ok d = Some s -> pb_class f = PRefused -> pb_forced A MI f = Some (pb_get A MI f d).
+Proof. exact refused_is_forced. Qed.
+Print Assumptions C19_protobuf_refused_field.
+
+Theorem C19_protobuf_field_classes : forall f,
+  (pb_class f = PRendered \/ pb_class f = PRefused \/ pb_class f = PSame) /\
+  (pb_class f = PSame <-> (f = F_si_mode_info \/ f = F_si_public_key)) /\ In f all_fields.
+Proof. intros f. split; [apply class_cases|]. split; [apply class_same_iff|apply all_fields_complete]. Qed.
+Print Assumptions C19_protobuf_field_classes.
+
+Theorem C19_protobuf_table_paths_distinct : NoDup (map fst pb_table).
+Proof. exact pb_table_paths_distinct. Qed.
+Print Assumptions C19_protobuf_table_paths_distinct.
+
+(* the guard matters: without its extension-options term two documents that differ in body.extension_options hand the
+   same legacy document to the renderer (the code as it is refuses the second) *)
+Theorem C19_protobuf_ext_guard_needed :
+  exists d1 d2 s,
+    pb_decode_without_ext_guard N N (fun _ => true) (fun _ => true) d1 = Some s /\
+    pb_decode_without_ext_guard N N (fun _ => true) (fun _ => true) d2 = Some s /\
+    pb_get N N F_ext d1 <> pb_get N N F_ext d2 /\
+    pb_decode N N (fun _ => true) (fun _ => true) d2 = None.
+Proof. exact pb_decode_without_ext_guard_not_binding. Qed.
+Print Assumptions C19_protobuf_ext_guard_needed.
+
+(* non-vacuity: an accepted document, and one refused for each guard *)
+Example C19_example_protobuf_doc :
+  pb_decode N N (fun l => negb (is_nil l)) (fun _ => true) (ext_unbound_doc []) =
+    Some (mkStd (bs "evermint_80808-1") 3 5 0 [] 200000 [7] []) /\
+  pb_decode N N (fun l => negb (is_nil l)) (fun _ => true) (ext_unbound_doc [1]) = None /\
+  pb_decode N N (fun l => negb (is_nil l)) (fun _ => true)
+    (mkPb [7] [] 0 [] [] [mkSI None None 5] (Some (mkFee [] 200000 (bs "evm1payer") [])) None (bs "evermint_80808-1") 3) = None /\
+  pb_decode N N (fun l => negb (is_nil l)) (fun _ => true)
+    (mkPb [7] [] 0 [] [] [mkSI None None 5] (Some (mkFee [] 200000 [] [])) (Some (mkTip [] [])) (bs "evermint_80808-1") 3) = None /\
+  pb_decode N N (fun l => negb (is_nil l)) (fun _ => true)
+    (mkPb [7] [] 0 [] [] [mkSI None None 5; mkSI None None 5] (Some (mkFee [] 200000 [] [])) None (bs "evermint_80808-1") 3) = None /\
+  pb_decode N N (fun l => negb (is_nil l)) (fun _ => true)
+    (mkPb [7] [] 9 [] [] [mkSI None None 5] (Some (mkFee [] 200000 [] [])) None (bs "evermint_80808-1") 3) = None /\
+  length pb_table = 19%nat.
+Proof. vm_compute. repeat split; reflexivity. Qed.
